@@ -33,7 +33,7 @@ var (
 //
 // The lanes are inputs of the vector multiplication and of negate_lazy (2p - v), so each limb must
 // not exceed the corresponding limb of 2p.
-func checkCached(w *mc.W, name string, l *[4][10]uint32, want ref.Point) bool {
+func checkCached(w *mc.W, name string, l *curve.VerifLanes, want ref.Point) bool {
 	cas := map[string]string{"entry": name, "lanes": fmt.Sprintf("%x", *l)}
 	a, b, cc, d := laneInt(&l[0]), laneInt(&l[1]), laneInt(&l[2]), laneInt(&l[3])
 	ok := true
@@ -64,32 +64,47 @@ func checkCached(w *mc.W, name string, l *[4][10]uint32, want ref.Point) bool {
 		}
 	}
 	if ok {
-		ok = checkPoint(w, name+"->setCached", curve.VerifC20CachedToEdwards(l), want)
+		if f, have := curve.VerifC20Reg["cachedToEdwards"].(func(*curve.VerifLanes) *curve.EdwardsPoint); have {
+			ok = checkPoint(w, name+"->setCached", f(l), want)
+		} else {
+			missing("curve", "setCached")
+		}
 	}
 	return ok
 }
 
 func vectorTables(c *mc.Ctx) *space {
 	s := &space{name: "vector-tables"}
-	if !curve.VerifC20VectorPresent() {
-		return s
+	if !curve.VerifSupportsVector() {
+		return s // the vector backend is not in use in this configuration: no vector tables exist
 	}
 	want := refconst.BasepointTable()
-	for _, t := range []struct {
-		name string
-		tbl  *curve.EdwardsBasepointTable
-	}{{"ED25519_BASEPOINT_TABLE(vector)", curve.ED25519_BASEPOINT_TABLE}, {"RISTRETTO_BASEPOINT_TABLE.inner(vector)", curve.VerifC20RistrettoTable()}} {
+	for _, t := range liveTables() {
 		t := t
-		lanes, ok := curve.VerifC20VecBasepointTable(t.tbl)
-		if !ok {
-			c.Broken(t.name + ": vector backend active but the table is not in vector form")
-			continue
-		}
+		tbl := t.get()
+		name := t.name + "(vector)"
+		lanes := &lazy{f: func() interface{} {
+			f, ok := curve.VerifC20Reg["vecBasepointTable"].(func(*curve.EdwardsBasepointTable) [][]curve.VerifLanes)
+			if !ok {
+				return nil
+			}
+			return f(tbl)
+		}}
 		for i := 0; i < 32; i++ {
 			for j := 0; j < 8; j++ {
 				i, j := i, j
 				s.add("vector-basepoint-table-entry", true, func(w *mc.W) {
-					checkCached(w, fmt.Sprintf("%s[%d][%d]", t.name, i, j), &lanes[i][j], want[i][j])
+					if _, ok := curve.VerifC20Reg["vecBasepointTable"]; !ok {
+						missing("curve", "EdwardsBasepointTable.innerVector")
+						return
+					}
+					lt, _ := lanes.get().([][]curve.VerifLanes)
+					en := fmt.Sprintf("%s[%d][%d]", name, i, j)
+					if i >= len(lt) || j >= len(lt[i]) {
+						w.Fail("vector-basepoint-table/missing", en+": the vector backend is active but the generated table has no such entry", nil)
+						return
+					}
+					checkCached(w, en, &lt[i][j], want[i][j])
 				})
 			}
 		}
@@ -97,8 +112,13 @@ func vectorTables(c *mc.Ctx) *space {
 			for x := -8; x <= 8; x++ {
 				i, x := i, x
 				s.add("vector-basepoint-table-lookup", x != 0, func(w *mc.W) {
-					l, _ := curve.VerifC20VecLookup(t.tbl, i, int8(x))
-					checkCached(w, fmt.Sprintf("%s[%d].Lookup(%d)", t.name, i, x), &l, lookupWant(want[i], x))
+					f, ok := curve.VerifC20Reg["vecLookup"].(func(*curve.EdwardsBasepointTable, int, int8) curve.VerifLanes)
+					if !ok {
+						missing("curve", "cachedPointLookupTable.Lookup")
+						return
+					}
+					l := f(tbl, i, int8(x))
+					checkCached(w, fmt.Sprintf("%s[%d].Lookup(%d)", name, i, x), &l, lookupWant(want[i], x))
 				})
 			}
 		}
@@ -108,24 +128,46 @@ func vectorTables(c *mc.Ctx) *space {
 		base := map[int]ref.Point{1: ref.Base, 2: refconst.BShl128()}[which]
 		tn := map[int]string{1: "constVECTOR_ODD_MULTIPLES_OF_BASEPOINT", 2: "constVECTOR_ODD_MULTIPLES_OF_B_SHL_128"}[which]
 		wantOdd := refconst.OddMultiples(base)
-		lanes, ok := curve.VerifC20VecOdd(which)
-		if !ok {
-			c.Broken(tn + " is nil although the vector backend is active")
-			continue
-		}
+		lanes := &lazy{f: func() interface{} {
+			f, ok := curve.VerifC20Reg["vecOdd"].(func(int) []curve.VerifLanes)
+			if !ok {
+				return nil
+			}
+			return f(which)
+		}}
 		for j := 0; j < 64; j++ {
 			j := j
 			s.add("vector-odd-table-entry", true, func(w *mc.W) {
-				checkCached(w, fmt.Sprintf("%s[%d]", tn, j), &lanes[j], wantOdd[j])
+				if _, ok := curve.VerifC20Reg["vecOdd"]; !ok {
+					missing("curve", tn)
+					return
+				}
+				lt, _ := lanes.get().([]curve.VerifLanes)
+				en := fmt.Sprintf("%s[%d]", tn, j)
+				if j >= len(lt) {
+					w.Fail("vector-odd-table/missing", en+": the vector backend is active but the generated table has no such entry", nil)
+					return
+				}
+				checkCached(w, en, &lt[j], wantOdd[j])
 			})
 			s.add("vector-odd-table-lookup", true, func(w *mc.W) {
-				l, _ := curve.VerifC20VecOddLookup(which, uint8(2*j+1))
+				f, ok := curve.VerifC20Reg["vecOddLookup"].(func(int, uint8) curve.VerifLanes)
+				if !ok {
+					missing("curve", tn+".Lookup")
+					return
+				}
+				l := f(which, uint8(2*j+1))
 				checkCached(w, fmt.Sprintf("%s.Lookup(%d)", tn, 2*j+1), &l, wantOdd[j])
 			})
 		}
 	}
 	s.add("vector-constant", false, func(w *mc.W) {
-		l, _ := curve.VerifC20ExtendedIdentity()
+		f, ok := curve.VerifC20Reg["extendedIdentity"].(func() curve.VerifLanes)
+		if !ok {
+			missing("curve", "constEXTENDEDPOINT_IDENTITY")
+			return
+		}
+		l := f()
 		x, y, z, tt := laneInt(&l[0]), laneInt(&l[1]), laneInt(&l[2]), laneInt(&l[3])
 		if x.Sign() != 0 || y.Cmp(one) != 0 || z.Cmp(one) != 0 || tt.Sign() != 0 {
 			w.Fail("constEXTENDEDPOINT_IDENTITY/value", fmt.Sprintf("constEXTENDEDPOINT_IDENTITY = (%x, %x, %x, %x), want (0, 1, 1, 0)", x, y, z, tt), nil)
